@@ -8,7 +8,7 @@ M4 the counters behind the cluster columns are true (= C02.P4)
 import ast
 
 from ..index import AnalysisError, walk_no_nested
-from ..norm import Affine, Canon, ProvCanon, affine, effects_of_event
+from ..norm import Affine, Canon, ProvCanon, affine, effects_of_event, effects_along
 from ..paths import Frame, cached_paths, contains_yield
 from ..simpy_model import registration_order, witness
 from .common import call_name, iteration_segments, short
@@ -246,8 +246,8 @@ def unit_sleepers(repo, res, canon, rule):
     dfr = Frame(d)
     bad = None
     for p in cached_paths(d):
-        for e in p.events:
-            for ef in effects_of_event(canon, e):
+        for e, _efs in effects_along(canon, p.events):
+            for ef in _efs:
                 root = ef.loc.split('.', 1)[0].split('[', 1)[0]
                 if root not in ('Task', 'self'):
                     bad = ef
